@@ -66,8 +66,10 @@ def static_values(func, name, at, depth=0):
     a = func.node.args
     if any(x.arg == name.id for x in a.posonlyargs + a.args + a.kwonlyargs) or (a.vararg and a.vararg.arg == name.id) or (a.kwarg and a.kwarg.arg == name.id):
         parent = getattr(func, "parent", None)
-        if parent is None or binders:
+        if binders:
             return None
+        if parent is None:
+            return _module_param_values(func, name.id, depth) if func.cls is None else None
         return _nested_param_values(parent.node, func.node, name.id)
     if not binders:
         # a parameter of a nested def (the enclosing function is analysed as a whole, nested bodies included)
@@ -127,6 +129,101 @@ def _nested_param_values(parent_node, fn, pname):
     return out
 
 
+_REPO = [None]
+_BY_CALLER = {}   # (id(helper node), parameter) -> {caller qualname: literal expressions it passes}
+
+
+def callers_passing(func, attr_name):
+    """For a module-level helper whose `setattr(obj, <parameter>, ...)` stands for several attributes: the qualnames of the callers
+    that pass `attr_name` (directly or inside a tuple) for any of its parameters.  None when the helper's call sites are not known."""
+    found = False
+    out = set()
+    for (fid, _p), by in _BY_CALLER.items():
+        if fid != id(func.node):
+            continue
+        found = True
+        for q, lits in by.items():
+            for l in lits:
+                if any(isinstance(x, ast.Constant) and x.value == attr_name for x in ast.walk(l)):
+                    out.add(q)
+    return out if found else None
+
+
+def _module_param_values(func, pname, depth):
+    """What the call sites in the package pass for parameter `pname` of the module-level function `func` (a shared helper that is
+    only ever called by name), resolved to literals in the *caller's* context.  None when some call site is not enumerable."""
+    repo = _REPO[0]
+    if repo is None or depth > 3:
+        return None
+    a = func.node.args
+    pos = [x.arg for x in a.posonlyargs + a.args]
+    out = []
+    ncalls = 0
+    for g in repo.all_funcs():
+        if g.node is func.node:
+            continue
+        for c in ast.walk(g.node):
+            if isinstance(c, ast.Name) and c.id == func.name and isinstance(c.ctx, ast.Load):
+                ncalls -= 1   # balanced by the call below; a use as a value leaves the count negative
+            if not (isinstance(c, ast.Call) and isinstance(c.func, ast.Name) and c.func.id == func.name):
+                continue
+            if repo.function_for(func.name, g.module) is not func:
+                continue
+            ncalls += 2
+            if any(isinstance(x, ast.Starred) for x in c.args) or any(k.arg is None for k in c.keywords):
+                return None
+            if a.vararg and a.vararg.arg == pname:
+                e = ast.copy_location(ast.Tuple(elts=list(c.args[len(pos):]), ctx=ast.Load()), c)
+            elif pname in pos and pos.index(pname) < len(c.args):
+                e = c.args[pos.index(pname)]
+            else:
+                e = next((k.value for k in c.keywords if k.arg == pname), None)
+                if e is None:
+                    d = dict(zip(pos[len(pos) - len(a.defaults):], a.defaults)).get(pname)
+                    if d is None:
+                        return None
+                    e = d
+            lits = _literal_in(g, e, c, depth + 1)
+            if lits is None:
+                return None
+            out.extend(lits)
+            _BY_CALLER.setdefault((id(func.node), pname), {}).setdefault(g.qualname, []).extend(lits)
+    # every load of the name is a call (the counts cancel): the helper does not escape as a value
+    uses = sum(1 for g in repo.all_funcs() if g.node is not func.node for n in ast.walk(g.node)
+               if isinstance(n, ast.Name) and n.id == func.name and isinstance(n.ctx, ast.Load) and repo.function_for(func.name, g.module) is func)
+    calls = sum(1 for g in repo.all_funcs() if g.node is not func.node for n in ast.walk(g.node)
+                if isinstance(n, ast.Call) and isinstance(n.func, ast.Name) and n.func.id == func.name and repo.function_for(func.name, g.module) is func)
+    if not calls or uses != calls:
+        return None
+    return out
+
+
+def _literal_in(g, e, at, depth):
+    """`e`, written in function `g`, as a list of literal expressions (constants, or tuples/lists of constants)."""
+    if isinstance(e, ast.Constant):
+        return [e]
+    if isinstance(e, (ast.Tuple, ast.List)) and not any(isinstance(x, ast.Starred) for x in e.elts):
+        parts = []
+        for x in e.elts:
+            sub = _literal_in(g, x, at, depth)
+            if sub is None or len(sub) != 1:
+                return None
+            parts.append(sub[0])
+        return [ast.copy_location(ast.Tuple(elts=parts, ctx=ast.Load()), e)]
+    if isinstance(e, ast.Name) and depth <= 4:
+        vals = static_values(g, e, at, depth + 1)
+        if vals is None:
+            return None
+        out = []
+        for v in vals:
+            sub = _literal_in(g, v, at, depth + 1)
+            if sub is None:
+                return None
+            out.extend(sub)
+        return out
+    return None
+
+
 def _target_path(target, ident):
     if isinstance(target, ast.Name):
         return () if target.id == ident else None
@@ -162,6 +259,7 @@ class Effects:
         self.by_func = {}
         self.calls = {}
         self.stats = {"calls": 0, "resolved": 0, "unresolved": 0, "external": 0}
+        _REPO[0] = repo
         for f in repo.all_funcs():
             self._analyse(f)
 
@@ -239,7 +337,7 @@ class Effects:
                 # a function handed over as a value (sorted(..., key=helper), map(helper, ...)) is called by the receiver
                 for av in list(n.args) + [kw.value for kw in n.keywords]:
                     if isinstance(av, ast.Name) and av.id in self.repo.functions and ft.lookup(av.id, av) is None:
-                        calls.append(CallSite(n, [self.repo.functions[av.id]], True, func))
+                        calls.append(CallSite(n, [self.repo.function_for(av.id, func.module)], True, func))
                 callees, resolved = ft.resolve_call(n)
                 self.stats["calls"] += 1
                 if callees:
@@ -285,7 +383,7 @@ class Effects:
                             for seg in a0.value.split("."):
                                 effs.append(Effect("read", None, seg, lam, lam, func))
                 elif isinstance(lam, ast.Name) and lam.id in self.repo.functions and lam.id not in consulted:
-                    calls.append(CallSite(st0, [self.repo.functions[lam.id]], True, func))
+                    calls.append(CallSite(st0, [self.repo.function_for(lam.id, func.module)], True, func))
                 elif isinstance(lam, ast.Name) and lam.id in top and lam.id not in done:
                     todo.append(lam.id)   # a table entry that is itself a module-level name (a key bound first, then listed)
         self.by_func[id(func.node)] = effs
